@@ -80,7 +80,7 @@ CLAIMED = {
         note="Trusted: Lean kernel + standard axioms, hand-written import model (tied by the multi-file stream), harness; termination of every run (C17_full) not proved; open finding DC17.2 (a completing child fiber wakes an importer whose module body is still parked)",
         technique="Lean 4 invariant proofs over the import machine + multi-file program stream"),
     "C19": dict(
-        text="Lean theorems on the REPL compile loop: symbols persist to the same slot across entries, a failing compile changes nothing, a whole session's property and invoke cache ids are consecutive, disjoint and inside vectors that only grow (C19_full holds: D13 repaired in /repo, the old restarted numbering kept as a regression fact), fibers left pending by earlier entries survive erroneous entries on the C08 scheduler model (open: DC19.1 failed import skips a cache entry, DC19.2 deadlocked entry fiber resumes at a stale ip, DC19.3 wake-up owed by an ended script is lost; repl loop order regenerated from the VM text); generated sessions run through Vm::repl vs the concatenated module, incl. functions with cache sites defined in one entry and called from later ones and fibers/channels that live across entries, plus a compile-log tie of module slots and cache ids read back from the encoded bytes",
+        text="Lean theorems on the REPL compile loop: symbols persist to the same slot across entries, a failing compile changes nothing, a whole session's property and invoke cache ids are consecutive, disjoint and inside vectors that only grow (C19_full holds: D13 repaired in /repo, the old restarted numbering kept as a regression fact), fibers left pending by earlier entries survive erroneous entries on the C08 scheduler model (DC19.1, a failed import skipping a cache entry, repaired in /repo; open: DC19.2 deadlocked entry fiber resumes at a stale ip, DC19.3 wake-up owed by an ended script is lost; repl loop order regenerated from the VM text); generated sessions run through Vm::repl vs the concatenated module, incl. functions with cache sites defined in one entry and called from later ones and fibers/channels that live across entries, plus a compile-log tie of module slots and cache ids read back from the encoded bytes",
         note="Trusted: Lean kernel + standard axioms, hand-written REPL model, vh_repl harness; the lengths of the cache vectors are not observable through a hook (ids in range are proved on the model and seen as the absence of the debug assertion); that grow keeps cached state is exercised, not modelled",
         technique="Lean 4 invariant proofs over REPL sessions + session/concatenation differential stream"),
     "C20": dict(
